@@ -1177,6 +1177,69 @@ template <typename T> static void large_case(int compr, size_t created) {
     }
 }
 
+// ------------------------------------------------------------------------------------------------ large regions, read as other types
+// Arrays of 3000 (rank 1) and 40 x 60 (rank 2) elements holding their linear index; every region of a fixed list (whole array, regions of
+// more than 1024 elements starting at / behind the first row, with full and partial rows, a region of exactly 1024 and of 1025 elements) is
+// read raw and calibrated (polynomial 1 + 2x, origin 3: every expected value is a small integer, exact in every target type) as Double,
+// Float, Int64, Int32, Int16 and UInt16 into a sentinel-filled buffer with two guard elements.
+static std::string ndstr(const NDSize &n) { std::string r = "["; for (size_t i = 0; i < n.size(); i++) r += (i ? "," : "") + std::to_string(n[i]); return r + "]"; }
+template <typename S, typename T> static void large_region_reads(int rank, bool calibrated) {
+    typedef TT<S> XS; typedef TT<T> XT;
+    const std::string path = vf::scratch_file("c01region.h5");
+    const std::string tn = XS::name() + std::string(" read as ") + XT::name();
+    vf::set_clock(1500000000);
+    File f = File::open(path, FileMode::Overwrite);
+    Block b = f.createBlock("blk", "t");
+    const NDSize ext = rank == 1 ? NDSize{3000} : NDSize{40, 60};
+    const size_t N = rank == 1 ? 3000 : 2400, W = rank == 1 ? 1 : 60;
+    DataArray K = b.createDataArray("arr", "t", XS::dt(), ext);
+    std::vector<S> stored(N);
+    for (size_t i = 0; i < N; i++) stored[i] = S(i);
+    K.setData(XS::dt(), stored.data(), ext, rank == 1 ? NDSize{0} : NDSize{0, 0});
+    if (calibrated) { K.polynomCoefficients(std::vector<double>{1.0, 2.0}); K.expansionOrigin(3.0); }
+    std::vector<std::pair<NDSize, NDSize>> regions;   // (offset, count)
+    if (rank == 1) regions = {{NDSize{0}, NDSize{3000}}, {NDSize{7}, NDSize{2000}}, {NDSize{1000}, NDSize{1024}}, {NDSize{1000}, NDSize{1025}}, {NDSize{1975}, NDSize{1025}}, {NDSize{5}, NDSize{10}}};
+    else regions = {{NDSize{0, 0}, NDSize{40, 60}}, {NDSize{5, 10}, NDSize{30, 50}}, {NDSize{1, 0}, NDSize{39, 60}}, {NDSize{3, 7}, NDSize{32, 32}}, {NDSize{3, 7}, NDSize{25, 41}}, {NDSize{10, 0}, NDSize{30, 60}}, {NDSize{39, 59}, NDSize{1, 1}}};
+    for (int session = 0; session < 2; session++) {
+        if (session == 1) { K = nix::none; b = nix::none; f.close(); f = File::open(path, FileMode::ReadOnly); b = f.getBlock("blk"); K = b.getDataArray("arr"); }
+        for (auto &rg : regions) {
+            const NDSize &off = rg.first, &cnt = rg.second;
+            const size_t n = (size_t)cnt.nelms();
+            std::vector<T> buf(n + 2, XT::sentinel());
+            std::string what;
+            std::string exc = vf::guarded([&] { K.getData(XT::dt(), buf.data(), cnt, off); }, &what);
+            vf::count("read_calls"); vf::count("large_region_reads");
+            const std::string rs = std::string(rank == 1 ? "rank 1" : "rank 2") + (n > 1024 ? ", more than 1024 elements" : ", at most 1024 elements") + (off[0] ? ", offset behind the first row" : ", offset 0") + (session ? ", after REOPEN" : "");
+            vf::distinct("outcomes", "region|" + tn + "|" + (calibrated ? "calibrated|" : "raw|") + rs + "|" + (exc.empty() ? "ok" : exc));
+            const std::string ctx = std::string("array ") + (rank == 1 ? "[3000]" : "[40,60]") + " of " + XS::name() + " holding its linear index" + (calibrated ? ", polynomial {1,2}, origin 3" : "") +
+                                    "; getData as " + XT::name() + " offset " + ndstr(off) + " count " + ndstr(cnt) + (session ? " after REOPEN" : "");
+            if (!exc.empty()) { vf::violation("C01|getData as <U>|<T> array, large region|read of existing cells throws|" + exc, ctx + ": " + what); continue; }
+            size_t bad = 0, first = 0; T g = T(), w = T();
+            for (size_t i = 0; i < n + 2; i++) {
+                T want;
+                if (i >= n) want = XT::sentinel();
+                else {
+                    size_t r = rank == 1 ? 0 : i / (size_t)cnt[1], c = rank == 1 ? i : i % (size_t)cnt[1];
+                    size_t lin = rank == 1 ? (size_t)off[0] + c : ((size_t)off[0] + r) * W + (size_t)off[1] + c;
+                    double v = (double)lin;
+                    if (calibrated) v = 1.0 + 2.0 * (v - 3.0);
+                    want = T(v);
+                }
+                vf::count("cell_reads");
+                if (!XT::same(buf[i], want)) { if (!bad) { first = i; g = buf[i]; w = want; } bad++; }
+            }
+            if (bad)
+                vf::violation(std::string("C01|getData as <U>|<T> array, large region, ") + (calibrated ? "calibrated" : "raw") + "|" + (first >= n ? "elements beyond the requested count are untouched" : calibrated ? "calibrated read equals the polynomial at (stored - origin) converted to the requested type" : "element reads as written, converted") + "|" + (first >= n ? "overwritten" : "different value"),
+                              ctx + ": " + std::to_string(bad) + " of " + std::to_string(n) + " elements wrong, first at " + std::to_string(first) + ": " + XT::show(g) + " expected " + XT::show(w));
+        }
+    }
+    K = nix::none; b = nix::none; f.close();
+}
+template <typename S> static void large_region_case(int rank, bool calibrated) {
+    large_region_reads<S, double>(rank, calibrated); large_region_reads<S, float>(rank, calibrated); large_region_reads<S, int64_t>(rank, calibrated);
+    large_region_reads<S, int32_t>(rank, calibrated); large_region_reads<S, int16_t>(rank, calibrated); large_region_reads<S, uint16_t>(rank, calibrated);
+}
+
 // ------------------------------------------------------------------------------------------------ main
 static const std::vector<std::vector<Ext>> &init_lists() {
     // per rank: the initial extents, values from {0,1,2,3} per axis; the tiers take a prefix of the list
@@ -1235,6 +1298,13 @@ int main(int argc, char **argv) {
         vf::case_desc(std::string("large 1-D array: ") + (t == 0 ? "Double" : "Int32") + ", " + COMPR_NAME[compr] + ", created with extent " + std::to_string(created) +
                       ", resized to 3000, one block written, read block-wise into a reused non-zero buffer");
         if (t == 0) large_case<double>(compr, created); else large_case<int32_t>(compr, created);
+    }
+    // large regions read as other numeric types, raw and calibrated: {Double, Int32, Int16} stored x rank {1,2}
+    for (int t = 0; t < 3; t++) for (int rank = 1; rank <= 2; rank++) for (int cal = 0; cal < 2; cal++) {
+        long cid = g_caseno++;
+        if (!vf::take_case(cid)) continue;
+        vf::case_desc(std::string("large regions of a rank-") + std::to_string(rank) + " array of " + (t == 0 ? "Double" : t == 1 ? "Int32" : "Int16") + " read " + (cal ? "calibrated" : "raw") + " as six numeric types");
+        if (t == 0) large_region_case<double>(rank, cal); else if (t == 1) large_region_case<int32_t>(rank, cal); else large_region_case<int16_t>(rank, cal);
     }
     vf::note("depth", std::to_string(depth3));
     vf::note("configurations", std::to_string(configs.size()));
